@@ -60,7 +60,7 @@ _FS_ASSUME = [
 
 STREAMS["pack"] = {"name": "pack", "corr": "Corr.RunPack"}
 _PACK_ASSUME = _FS_ASSUME + [
-    "modelled, not verified for Pack: filepath.Walk order (sorted names), filepath.Rel/Abs/Join, os.Open following links, archive/tar FormatUnknown mtime rounding; validated per run: every case packs in a chrooted child, the slug is decoded with archive/tar and compared entry by entry (names, order, types, perms, rounded mtimes, targets, bodies, Meta) with the model",
+    "modelled, not verified for Pack: filepath.Walk order (sorted names), filepath.Rel/Abs/Join, os.Open (of the walked path, or for a dereferenced link of the file whose Lstat result fills the header), archive/tar FormatUnknown mtime rounding; validated per run: every case packs in a chrooted child, the slug is decoded with archive/tar and compared entry by entry (names, order, types, perms, rounded mtimes, targets, bodies, Meta) with the model",
 ]
 
 PROPS = {
